@@ -35,7 +35,8 @@ def gen_case(rng):
     present = [c['index'] for c in contents if rng.random() < 0.75] or [contents[0]['index']]
     return dict(b9seed=b9seed, contents=contents, present=present, cki=rng.randrange(6), dev=rng.random() < 0.25,
                 cert=rng.choice([0, 1, 0x3F, 0x40, 0x41, 0xA00]), meta=rng.choice([0, 0, 8, 0x3AC0]), start=rng.choice([0, 0, 0x40, 0x123]),
-                tid=(0x00040000 << 32) | rng.getrandbits(32), tkseed=rng.randrange(1 << 30), bogus=(rng.random() < 0.1))
+                tid=(0x00040000 << 32) | rng.getrandbits(32), tkseed=rng.randrange(1 << 30), bogus=(rng.random() < 0.1),
+                shared=(rng.choice([[3, 0, 3], [5, 0, 5], [0, 1, 0], [rng.randrange(6) for _ in range(3)]]) if rng.random() < 0.35 else None))
 
 
 def run_case(ctx, mr, case):
@@ -174,6 +175,31 @@ def run_case(ctx, mr, case):
                 ctx.stat('nested_readers')
     finally:
         r.close()
+    # one engine handed to several archives in a row (crypto=engine): each ticket is decrypted under its own common key, whatever
+    # tickets the engine has seen before -- in particular index k, then 0 (on dev units a plain normal key), then k again
+    if case.get('shared'):
+        from pyctr.crypto.engine import CryptoEngine
+        engine = CryptoEngine(dev=dev)
+        k = case['cki'] or 3
+        for step, cki in enumerate(case['shared']):
+            tk = pyenv.rbytes(rng, 16)
+            cia2, _ = P.build_cia(contents, title_id=case['tid'], titlekey=tk, common_key_x=ckx, common_key_index=cki,
+                                  present=present, cert_chain=b'', meta=b'', dev_key0=E.DEV_COMMON_KEY_0 if dev else None)
+            ctx.stat('shared_engine_archives')
+            try:
+                r3 = CIAReader(io.BytesIO(cia2), crypto=engine, dev=dev, load_contents=False)
+            except Exception as ex:
+                ctx.diff('oracle', 'cia-open-raises', dict(case, step=step), 'a reader', pyenv.errname(ex) + ': ' + str(ex)[:80], 'well-formed CIA rejected by a reused engine')
+                break
+            try:
+                got_tk = r3._crypto.key_normal.get(0x40)
+                i = next((c['index'] for c in contents if c['index'] in present and c['encrypted']), None)
+                bad_content = i is not None and r3.open_raw_section(i).read() != next(c['data'] for c in contents if c['index'] == i)
+                if got_tk != tk or bad_content:
+                    ctx.diff('oracle', 'cia-titlekey-shared-engine', dict(case, step=step), tk.hex(), (got_tk or b'').hex(),
+                             f'archive {step} (common key index {cki}) opened with an engine that loaded the tickets {case["shared"][:step]} before: wrong title key')
+            finally:
+                r3.close()
 
 
 def run_cases(ctx, cases):
